@@ -1,16 +1,26 @@
 use crate::engine::Ctx;
 
+pub mod c01;
+#[cfg(not(pv_core))]
 pub mod c12;
+#[cfg(not(pv_core))]
 pub mod c13;
+#[cfg(not(pv_core))]
 pub mod c14;
+#[cfg(not(pv_core))]
 pub mod c15;
 
 /// Dispatch table: property id -> runner.
 pub fn run(ctx: &mut Ctx) -> bool {
     match ctx.id.as_str() {
+        "C01" => c01::run(ctx),
+        #[cfg(not(pv_core))]
         "C12" => c12::run(ctx),
+        #[cfg(not(pv_core))]
         "C13" => c13::run(ctx),
+        #[cfg(not(pv_core))]
         "C14" => c14::run(ctx),
+        #[cfg(not(pv_core))]
         "C15" => c15::run(ctx),
         _ => return false,
     }
